@@ -1,1 +1,81 @@
-"""Kani route (thorough tier). Filled in later."""
+"""Kani route (thorough tier only): runs the registered harnesses of a property on the compiled real code."""
+import json
+import os
+import re
+import shutil
+import subprocess
+import time
+
+VX = os.path.dirname(os.path.abspath(__file__))
+VERIF = os.path.dirname(VX)
+REPO = os.environ.get("VLS_REPO", "/repo")
+KANI_DIR = os.path.join(VERIF, "kani")
+
+
+def _run(cmd, cwd, timeout):
+    env = dict(os.environ)
+    env["CARGO_NET_OFFLINE"] = "true"
+    t0 = time.time()
+    try:
+        p = subprocess.run(cmd, cwd=cwd, env=env, stdout=subprocess.PIPE, stderr=subprocess.STDOUT, timeout=timeout)
+        out = p.stdout.decode(errors="replace")
+        rc = p.returncode
+    except subprocess.TimeoutExpired as e:
+        out = (e.stdout or b"").decode(errors="replace") + "\nTIMEOUT"
+        rc = 124
+    return rc, out, time.time() - t0
+
+
+def run_for(prop, tier):
+    if tier != "thorough":
+        return None
+    reg = json.load(open(os.path.join(VX, "kani_harnesses.json")))["harnesses"]
+    mine = [h for h in reg if prop in h["props"]]
+    if not mine:
+        return None
+    res = {"harnesses": [], "cmds": [], "trusted": [], "violations": [], "undecided": None}
+    groups = {}
+    for h in mine:
+        groups.setdefault(h["where"], []).append(h)
+    for where, hs in groups.items():
+        if where == "crate":
+            cwd = KANI_DIR
+            try:
+                shutil.copy(os.path.join(REPO, "Cargo.lock"), os.path.join(KANI_DIR, "Cargo.lock"))
+            except Exception:
+                pass
+            cmd = ["cargo", "kani"]
+            tgt = os.path.join(KANI_DIR, "target")
+        else:
+            cwd = os.path.join(REPO, "vls-core")
+            cmd = ["cargo", "kani", "--no-default-features", "--features", "std"]
+            tgt = os.path.join(KANI_DIR, "target-inline")
+        for h in hs:
+            cmd += ["--harness", h["name"]]
+        os.environ["CARGO_TARGET_DIR"] = tgt
+        rc, out, secs = _run(cmd, cwd, 2400)
+        res["cmds"].append("(cd %s && CARGO_TARGET_DIR=%s %s)" % (cwd, tgt, " ".join(cmd)))
+        if "Checking harness" not in out:
+            res["undecided"] = "kani did not run (%s): %s" % (where, out[-400:])
+            continue
+        # per harness verdicts
+        blocks = re.split(r"Checking harness ", out)[1:]
+        seen = {}
+        for b in blocks:
+            name = b.split("...")[0].split("::")[-1].strip()
+            ok = "VERIFICATION:- SUCCESSFUL" in b
+            m = re.search(r"Verification Time: ([0-9.]+)s", b)
+            seen[name] = (ok, float(m.group(1)) if m else 0.0, b)
+        for h in hs:
+            if h["name"] not in seen:
+                res["undecided"] = "harness %s not run" % h["name"]
+                continue
+            ok, t, b = seen[h["name"]]
+            res["harnesses"].append({"name": h["name"], "class": h["class"], "bound": h.get("bound"), "ok": ok, "secs": t,
+                                     "what": h["what"], "backend": "kani/cbmc"})
+            if not ok:
+                failed = re.findall(r"Failed Checks: (.*)", b)
+                res["violations"].append({"id": "kani:%s" % h["name"], "message": "; ".join(failed)[:500], "rendered": b[-1500:],
+                                          "tags": [], "fn": None, "real": h["name"], "lines": [],
+                                          "counterexample": None})
+    return res
